@@ -36,7 +36,10 @@ func c21(c *Ctx) {
 	c.Reject(open, opened, "waitAndLock(&$r.gate,$0) != nil")
 	c.Guard(open, opened, "$r.opened >= 0")
 	c.QaGuardAny(open, QaResultNilErr(), []string{"waitAndLock(&$r.gate,$0) == nil", "$r.opened >= 0"})
-	c.Before(open, QaResultIs(0, "$r.opened"), opened)
+	// the stream number handed out is `opened` as it was before the increment:
+	// decided on the SSA value returned (a read of lim.opened that precedes the
+	// store of opened+1), so named results and a local copy are the same.
+	c.Q1ReturnsValueBeforeUpdate(open, 0, "quic.localStreamLimits.opened")
 	c.QaPaired(open, QaResultNilErr(), opened)
 	c.Before(open, Defers(L+"unlock"), opened)
 	c.Callers(open, "(*quic.Conn).newLocalStream")
